@@ -123,9 +123,12 @@ def gen_attr(rng, pool):
         k = rng.choice(["include", "lib", "save", "save", "meas", "param", "literal"])
         c = {"k": k}
         if k == "include":
-            c["path"] = rng.choice(["/home/models", "models/a.sp", "./x"])
+            # spellings a path-normaliser would rewrite: up-level steps (another file when the skipped directory is a symlink),
+            # doubled and trailing separators as pathlib keeps or drops them, environment variables, a leading `~`, spaces
+            c["path"] = rng.choice(["/home/models", "models/a.sp", "./x", "models/current/../corners.lib", "../pdk/x.sp", "$PDK_ROOT/libs.tech/../libs.ref/x.spice",
+                                    "~/models/a.sp", "a//b.sp", "/pdk/my models/tt.sp", "..", "a/./b/../c.sp"])
         elif k == "lib":
-            c.update(path=rng.choice(["/pdk/lib.sp", "lib"]), section=rng.choice(["fast", "tt"]))
+            c.update(path=rng.choice(["/pdk/lib.sp", "lib", "/pdk/models/current/../corners.lib", "../../lib.sp", "${PDK}/x/../lib.sp"]), section=rng.choice(["fast", "tt"]))
         elif k == "save":
             c["t"] = {"k": rng.choice(["all", "none", "signal", "signals", "name", "names"])}
         elif k == "meas":
